@@ -25,7 +25,7 @@ package config
 // an unknown or empty key and a malformed value are errors; the wrapErrors/wrapErrorsUsing conflict is an error.
 //@ func parseCommon
 //@   props C12 C10 C11
-//@   requires c != nil
+//@   requires@C13 c != nil
 //@   assigns c.*
 //@   ensures !KnownCommonKey(cmd) ==> err != nil && unchangedExcept(c) && !fieldSetting
 //@   ensures old(WrapConsistent(c)) && err == nil ==> WrapConsistent(c)
@@ -95,6 +95,6 @@ package config
 //@ func registerMethodLines
 //@   props C09
 //@   trusted
-//@   requires lookup != nil
+//@   requires@C13 lookup != nil
 //@   assigns map(lookup)
 //@   ensures forall k string :: has(lookup, k) == (old(has(lookup, k)) || has(MethodLinePkgs(sourcePackage, lines), k))
